@@ -169,3 +169,12 @@ Proof.
     match goal with |- exists g', from_dict ?r ?b ?w = OK g' /\ _ =>
       exists (unwrap dummy_gate (from_dict r b w)); split; [vm_compute; reflexivity | repeat split; vm_compute; reflexivity] end.
 Qed.
+
+(* non-vacuity of raw_roundtrip_controlled_by: RX(2, theta).controlled_by(0, 1) on the example tables *)
+Definition ex_rx : gate := unwrap dummy_gate (construct ex_bases ex_RX [VA (AInt 2); fl 4607182418800017408] []).
+Lemma ex_controlled_hyp :
+  find_row (gcls ex_rx) ex_rows = Some ex_RX /\ rcb ex_RX = CBGate /\ String.eqb (gcls ex_rx) "M" = false
+  /\ gcontrols ex_rx = [] /\ [0; 1] <> [] /\ memZ (Z.of_nat (length [0; 1])) (rdispatch ex_RX) = false
+  /\ nodupZ [0; 1] = true /\ overlapZ (gtargets ex_rx) [0; 1] = false
+  /\ from_dict ex_rows ex_bases (raw ex_required ex_rx) = OK ex_rx /\ raw_rt_ok (OK ex_rx) ex_rx.
+Proof. repeat split; try (vm_compute; reflexivity); discriminate. Qed.
